@@ -33,16 +33,25 @@ static std::string run(const std::vector<std::string>& a) {
         Bytes r1 = get_hmac(k.data(), k.size(), m.data(), m.size(), type_of(a[1]));
         Bytes r2 = get_hmac(k, m, type_of(a[1]));
         std::string o1 = pub(r1), o2 = pub(r2);
-        return o1 == o2 ? o1 : "OVERLOAD-MISMATCH";
+        // the string-returning overloads with BINARY output (is_hex = false): vector key, secure_buffer key
+        std::string ms(m.begin(), m.end()); taint(&ms[0], ms.size());
+        secure_buffer<uint8_t> sk(k.size()); if (!k.empty()) { memcpy(sk.data(), k.data(), k.size()); taint(sk.data(), sk.size()); }
+        std::string s3 = get_hmac(k, ms, type_of(a[1]), false, false), s4 = get_hmac(sk, ms, type_of(a[1]), false, false);
+        untaint(s3.data(), s3.size()); untaint(s4.data(), s4.size());
+        std::string o3 = hx(reinterpret_cast<const uint8_t*>(s3.data()), s3.size()), o4 = hx(reinterpret_cast<const uint8_t*>(s4.data()), s4.size());
+        return (o1 == o2 && o2 == o3 && o3 == o4) ? o1 : "OVERLOAD-MISMATCH";
     }
     if (op == "hmachist") {       // ONE HmacContext object: I:<key> | U:<data> | F   (re-initialisation included)
-        TypeHash ty = type_of(a[1]); HmacContext c(ty); std::string out; bool first = true;
+        TypeHash ty = type_of(a[1]); HmacContext c(ty); HmacContext saved(ty); std::string out; bool first = true;
         size_t ds = ty == TypeHash::SHA1 ? 20 : ty == TypeHash::SHA256 ? 32 : 64;
         for (size_t i = 2; i < a.size(); ++i) {
             const std::string& o = a[i];
             if (o == "F") { Bytes d(ds); c.final(d.data(), ds); if (!first) out += ","; out += pub(d); first = false; }
             else if (o[0] == 'I') { Bytes k = secret(o.substr(2)); c.init(k.data(), k.size()); }
             else if (o[0] == 'U') { Bytes m = secret(o.substr(2)); c.update(m.data(), m.size()); }
+            else if (o == "V") saved = c;                 // save / restore by copy assignment (the target already holds pads of the same size)
+            else if (o == "R") c = saved;
+            else if (o == "K") { HmacContext c2(c); c = c2; }
         }
         return out;
     }
